@@ -334,6 +334,11 @@ class Exec:
             self._call(op)
         except Exception as e:  # noqa: BLE001
             exc = type(e).__name__
+        except KeyboardInterrupt as e:
+            if type(e).__name__ != "SimInterrupt":
+                raise
+            exc = "SimulatedSolverCrash"  # same demands as after a solver crash: the caller goes on
+            self.counters["fault_fired:integration_interrupted_by_user"] += 1
         t1, v1, lens1 = self.rows()
         self.trace.add(k, exc, [fnum(x) for x in t1[n0:]], [[fnum(x) for x in row] for row in v1[n0:]])
         fam = f"family:{ref.fam}"
@@ -542,6 +547,10 @@ class Exec:
             self.sim.simulate_to_steady_state(tolerance=op.get("tolerance", 1e-6), rel_norm=bool(op.get("rel_norm")))
         except Exception as e:  # noqa: BLE001
             exc = type(e).__name__
+        except KeyboardInterrupt as e:
+            if type(e).__name__ != "SimInterrupt":
+                raise
+            exc = "SimInterrupt"
         t1, v1, _ = self.rows()
         self.trace.add("steady_state", exc, [fnum(x) for x in t1[n0:]], [[fnum(x) for x in r] for r in v1[n0:]])
         self.counters["steady_state_op"] += 1
@@ -811,7 +820,7 @@ def make_config(rng: SimRng, prop: str, tier: str, avoid: set[str]) -> dict:
         "long_jumps": r.random() < 0.2,
         "faults": r.random() < 0.25,
         "start_poisoned": r.random() < 0.06,
-        "fault_mode": "raise" if r.random() < 0.35 else "fail",
+        "fault_mode": r.choice(["raise", "interrupt", "fail", "fail", "fail"]),
     }
 
 
